@@ -10,6 +10,7 @@ import (
 // Trace is the observed history of one case in the vocabulary of Server/Model.v.
 type Trace struct {
 	Labels   []string // Coq terms (label, option json)
+	Toks     []string // query token per label (Server/Queries.v)
 	Names    []string // short names, for histograms and replay files
 	Out      []string // mk_obs terms
 	Log      []string // LgSub / LgUnsub terms
@@ -157,12 +158,52 @@ var typeCode = map[string]int{"update": 0, "result": 1, "error": 2, "echo": 3}
 func BuildTrace(res *Result) *Trace {
 	t := &Trace{Streams: map[int][]interface{}{}}
 	v := analyze(res.Events)
+	tokOf := map[string]int{}
+	token := func(key string) int {
+		if n, ok := tokOf[key]; ok {
+			return n
+		}
+		tokOf[key] = len(tokOf) + 1
+		return len(tokOf)
+	}
+	nextTok := 0 // token of the next label emitted
 	emit := func(term, name string, prev string) {
 		if prev == "" {
 			prev = "None"
 		}
 		t.Labels = append(t.Labels, "("+term+", "+prev+")")
+		t.Toks = append(t.Toks, fmt.Sprint(nextTok))
+		nextTok = 0
 		t.Names = append(t.Names, name)
+	}
+	// the (query text, variables) a message asks for / a computation executed
+	opKey := func(o Op) string {
+		if o.Op == "mutate" {
+			return "M|" + MutQueries[o.Q%len(MutQueries)]
+		}
+		return SubQueries[o.Q%len(SubQueries)] + "|" + js(o.Vars)
+	}
+	runArg := map[int]int{}
+	for _, e := range res.Events {
+		if e.Kind == "arg" {
+			runArg[e.Run] = e.Ver
+		}
+	}
+	runKeyOf := func(r *runInfo) string {
+		if r.Gen < 0 || r.Gen >= len(v.gens) {
+			return "?"
+		}
+		g := v.gens[r.Gen]
+		if g.Msg < 0 || g.Msg >= len(res.Fed) {
+			return "?"
+		}
+		o := res.Fed[g.Msg]
+		if name := QueryVar(o.Q); name != "" && o.Op == "subscribe" {
+			if a, ok := runArg[r.N]; ok {
+				return SubQueries[o.Q%len(SubQueries)] + "|" + js(map[string]interface{}{name: float64(a)})
+			}
+		}
+		return opKey(o)
 	}
 	var cur *Op
 	done := true
@@ -175,6 +216,9 @@ func BuildTrace(res *Result) *Trace {
 	emitMsg := func() {
 		if cur != nil && !done {
 			term, name := msgLabel(*cur)
+			if cur.Op == "subscribe" || cur.Op == "mutate" {
+				nextTok = token(opKey(*cur))
+			}
 			emit(term, name, "")
 			done = true
 		}
@@ -207,6 +251,7 @@ func BuildTrace(res *Result) *Trace {
 		if gen < 0 {
 			gen = 999
 		}
+		nextTok = token(runKeyOf(r))
 		emit(fmt.Sprintf("LRun %d %s", gen, o), name, "(Some "+vh.CoqJSON(e.Previous)+")")
 	}
 	for evIdx, e := range res.Events {
@@ -324,8 +369,8 @@ func (t *Trace) CaseTerm(max int, clients map[int]interface{}, gens []int) strin
 		ids = append(ids, fmt.Sprint(i))
 	}
 	ids = append(ids, "99")
-	return fmt.Sprintf("mk_case (repaired %d)\n  %s\n  %s\n  %s\n  %s\n  %s\n  []\n  %s",
-		max, vh.CoqList(t.Labels), vh.CoqList(t.Out), vh.CoqList(t.Log), vh.CoqList(ids), vh.CoqList(cl), vh.CoqList(t.Released))
+	return fmt.Sprintf("mk_case (repaired %d)\n  %s\n  %s\n  %s\n  %s\n  %s\n  %s\n  []\n  %s",
+		max, vh.CoqList(t.Labels), vh.CoqList(t.Toks), vh.CoqList(t.Out), vh.CoqList(t.Log), vh.CoqList(ids), vh.CoqList(cl), vh.CoqList(t.Released))
 }
 
 func (t *Trace) Summary() string { return strings.Join(t.Names, " ") }
